@@ -477,10 +477,9 @@ Print Assumptions C05_usage_inputs_are_modelled.
    function that already has some is NOT accounted for *)
 Example C05_reads_nonvacuous :
   (0 < length observed_reads)%nat /\ (0 < length frame_ops)%nat /\
-  stage_of declared_reads ("hourly", "HourlyModel._add_categorical_features.correct_missing_temporal_clusters", "load", 5%nat)
-    = Some ClusterRepair /\
-  stage_of declared_reads ("hourly", "HourlyModel._normalize_features", "load", 3%nat) = None /\
-  stage_of declared_reads ("hourly", "HourlyModel._predict", "load", 1%nat) = None /\
-  stage_of declared_frame_ops ("hourly", "_HourlyData._set_data", "dropna", 1%nat) = None /\
-  stage_of declared_frame_ops ("hourly", "_HourlyData._set_data", "mask", 1%nat) = None.
+  stage_of declared_reads ex_cluster_load = Some ClusterRepair /\
+  stage_of declared_reads ex_normalize_one_more = None /\
+  stage_of declared_reads ex_predict_read = None /\
+  stage_of declared_frame_ops ex_set_data_dropna = None /\
+  stage_of declared_frame_ops ex_set_data_mask = None.
 Proof. repeat split; vm_compute; auto with arith. Qed.
